@@ -721,7 +721,7 @@ function cbuiltins.nelua_shl_(context, type)
   local bitsize, stype, utype = type.bitsize, type:signed_type(), type:unsigned_type()
   context:ensure_builtins('NELUA_LIKELY', 'NELUA_UNLIKELY')
   context:define_function_builtin(name,
-    'NELUA_INLINE', type, {{type, 'a'}, {stype, 'b'}},
+    'NELUA_INLINE', type, {{type, 'a'}, {primtypes.int64, 'b'}}, -- do not narrow the count to the type of `a`
     {[[{
   if(NELUA_LIKELY(b >= 0 && b < ]],bitsize,[[)) {
     return ((]],utype,[[)a) << b;
@@ -741,7 +741,7 @@ function cbuiltins.nelua_shr_(context, type)
   local bitsize, stype, utype = type.bitsize, type:signed_type(), type:unsigned_type()
   context:ensure_builtins('NELUA_LIKELY', 'NELUA_UNLIKELY')
   context:define_function_builtin(name,
-    'NELUA_INLINE', type, {{type, 'a'}, {stype, 'b'}},
+    'NELUA_INLINE', type, {{type, 'a'}, {primtypes.int64, 'b'}}, -- do not narrow the count to the type of `a`
     {[[{
   if(NELUA_LIKELY(b >= 0 && b < ]],bitsize,[[)) {
     return (]],utype,[[)a >> b;
@@ -761,7 +761,7 @@ function cbuiltins.nelua_asr_(context, type)
   local bitsize = type.bitsize
   context:ensure_builtins('NELUA_LIKELY', 'NELUA_UNLIKELY')
   context:define_function_builtin(name,
-    'NELUA_INLINE', type, {{type, 'a'}, {type:signed_type(), 'b'}},
+    'NELUA_INLINE', type, {{type, 'a'}, {primtypes.int64, 'b'}}, -- do not narrow the count to the type of `a`
     {[[{
   if(NELUA_LIKELY(b >= 0 && b < ]],bitsize,[[)) {
     return a >> b;
